@@ -44,7 +44,7 @@ def enc_prim(tag, pt, v):
     if pt == 'PBool':
         return hdr(tag, 6, 8) + struct.pack('!Q', 1 if v else 0)
     if pt == 'PText':
-        b = v.encode('latin-1')
+        b = v.encode('utf-8')                    # length and padding count BYTES
         return hdr(tag, 7, len(b)) + b + pad(len(b))
     if pt == 'PBytes':
         return hdr(tag, 8, len(v)) + bytes(v) + pad(len(v))
@@ -126,7 +126,10 @@ POOLS = {
     'PInterval': [0, 1, 255, 2 ** 16, 2 ** 31 - 1, 2 ** 31, 2 ** 32 - 1, 86400],
     'PBool': [True, False],
     'PText': ['', 'a', 'ab', 'abcdefg', 'abcdefgh', 'abcdefghi', '0123456789abcdef', 'x' * 15, 'y' * 17, 'z' * 40, '\x00', '\x7f',
-              'a\x00b', ' ', 'x-ID-Placeholder', '1', 'Cryptographic Algorithm', 'False', '0'],
+              'a\x00b', ' ', 'x-ID-Placeholder', '1', 'Cryptographic Algorithm', 'False', '0',
+              # non-ASCII: 2-, 3-, 4-byte sequences, boundaries of each width, byte lengths 7 / 8 / 9
+              '\u00e9', 'caf\u00e9', '\u20ac', '\x80', '\u07ff', '\u0800', '\uffff', '\U00010000', '\U0010ffff', '\ud7ff\ue000',
+              'abcdef\u00e9', 'abcde\u00e9', 'abcdefg\u00e9', '\u20ac' * 5],
     'PBytes': [b'', b'\x00', b'\x01', b'\xff', b'\x00' * 7, b'\x00' * 8, b'\xff' * 9, bytes(range(16)), bytes(range(17)),
                b'\x80' * 15, bytes(range(33)), b'\x42\x00\x08\x01\x00\x00\x00\x00'],
 }
@@ -159,7 +162,7 @@ class Gen:
             if pt == 'PInterval':
                 return r.getrandbits(32)
             if pt == 'PText':
-                return ''.join(r.choice('abcXYZ019 _-.~!/') for _ in range(r.randrange(0, 42)))
+                return ''.join(r.choice('abcXYZ019 _-.~!/\u00e9\u20ac\U0001f511') for _ in range(r.randrange(0, 42)))
             if pt == 'PBytes':
                 return bytes(r.getrandbits(8) for _ in range(r.randrange(0, 42)))
         return self.rot(pt, POOLS[pt])
@@ -238,6 +241,14 @@ class Gen:
         return out, k
 
 
+# ill-formed UTF-8 (lone continuation, truncated sequence, overlong forms, surrogates, > U+10FFFF, invalid lead bytes)
+# and well-formed boundary sequences
+UTF8_PROBES = [b'\x80', b'\xbf', b'\xc3', b'\xc3\x28', b'\xc0\x80', b'\xc1\xbf', b'\xe0\x80\x80', b'\xe0\x9f\xbf', b'\xed\xa0\x80',
+               b'\xed\xbf\xbf', b'\xf0\x80\x80\x80', b'\xf0\x8f\xbf\xbf', b'\xf4\x90\x80\x80', b'\xf5\x80\x80\x80', b'\xff', b'\xfe',
+               b'\xe2\x82', b'\xf0\x9f\x94', b'a\xe2\x82\xacb\xc3', b'ab\xffcd',
+               b'\xc2\x80', b'\xdf\xbf', b'\xe0\xa0\x80', b'\xef\xbf\xbf', b'\xf0\x90\x80\x80', b'\xf4\x8f\xbf\xbf', b'\xed\x9f\xbf', b'\xee\x80\x80']
+
+
 # ------------------------------------------------------------------ mutations of a valid encoding
 def mutations(tag, val, rng, schema, v, gen):
     """(label, bytes) list: field-level and byte-level corruptions of the encoding of a top-level structure value."""
@@ -287,10 +298,12 @@ def mutations(tag, val, rng, schema, v, gen):
                 out.append(('enum-not-a-member', wrap(tag, cs[:j] + [bytes(c)] + cs[j + 1:])))
                 break
         for j, (it, _) in enumerate(chunks):
-            if it['kind'] == ['prim', 'PText'] and len(cs[j]) > 8 and struct.unpack('!I', cs[j][4:8])[0] > 0:
-                c = bytearray(cs[j])
-                c[8] = rng.choice([0x80, 0xC3, 0xE9, 0xFF])
-                out.append(('text-non-ascii', wrap(tag, cs[:j] + [bytes(c)] + cs[j + 1:])))
+            if it['kind'] == ['prim', 'PText']:
+                # the text replaced by ill-formed (and a few well-formed) UTF-8 byte sequences
+                for k in range(2):
+                    raw = rng.choice(UTF8_PROBES)
+                    c = hdr(it['tag'], 7, len(raw)) + raw + pad(len(raw))
+                    out.append(('text-utf8-probe', wrap(tag, cs[:j] + [c] + cs[j + 1:])))
                 break
     # an item the class does not define / defines only under another version
     stray = enc_prim(0x420008, 'PText', 'stray')      # ATTRIBUTE_NAME as a stray item
